@@ -6,7 +6,7 @@ Cases == JsonDeserialize(IOEnv.TRACE_FILE)
 VARIABLES k, v
 
 Verdict(c) ==
-    CASE c.op = "fixed" -> FixedVerdict(c.y, c.nd, c.lam, c.out, c.hasp, c.p, c.hints)
+    CASE c.op = "fixed" -> FixedVerdict(c.y, c.nd, c.lam, c.out, c.hasp, c.p, c.hints, c.hinted)
       [] OTHER -> <<"REJECT", "UnknownOp", c.op>>
 
 Init == k \in 1..Len(Cases) /\ v = "todo"
